@@ -11,7 +11,7 @@
    finite-difference gradient it may be given is the gradient. *)
 From Coq Require Import Reals Lra.
 From Coquelicot Require Import Coquelicot.
-From CV Require Import Proofs.C15_Concave Proofs.C15_StrongQ.
+From CV Require Import Proofs.C15_Concave Proofs.C15_StrongQ Proofs.C15_Priors.
 Local Open Scope R_scope.
 
 (* concave differentiable log-density: the stationary points are exactly the global maximisers *)
@@ -92,6 +92,72 @@ Theorem C15_loglik_expansion :
   loglik m n A Pe b y = loglik m n A Pe b x + ip n (glik m n A Pe b x) (rsub y x) - 1 / 2 * qf Pe m (mv A n (rsub y x)).
 Proof. exact loglik_expansion. Qed.
 Print Assumptions C15_loglik_expansion.
+
+(* FINITE DIFFERENCES.  When the density has no gradient _solve_max_point hands none over and SciPy forms forward differences
+   (f(x + t e_i) - f(x)) / t.  For the Gaussian log-likelihood (any A, symmetric Pe, data b -- a Gaussian prior is one more block of
+   rows) this quotient is the gradient component minus EXACTLY (t/2) (A^T Pe A)_ii; along any direction d it is the directional
+   derivative minus (t/2) d^T A^T Pe A d.  Hence a stopping test passed by the finite-difference gradient bounds the true
+   gradient: |fd_i| <= tol and |(A^T Pe A)_ii| <= K give |g_i| <= tol + |t| K / 2, and C15_gauss_plus_concave_maximiser (5) then
+   bounds the distance to the maximiser.  (This closes "the finite-difference gradient is the gradient" for quadratic
+   log-densities; for non-quadratic priors it remains unproved.) *)
+Theorem C15_finite_difference_gradient :
+  forall (m n : nat) (A Pe : rmat) (b : rvec), sym_on m Pe ->
+  forall (x : rvec) (t : R), t <> 0 ->
+  (forall d, (loglik m n A Pe b (rline x d t) - loglik m n A Pe b x) / t = ip n (glik m n A Pe b x) d - t / 2 * qf Pe m (mv A n d)) /\
+  (forall i, (i < n)%nat ->
+     (loglik m n A Pe b (rline x (unitv i) t) - loglik m n A Pe b x) / t = glik m n A Pe b x i - t / 2 * qf Pe m (mv A n (unitv i))) /\
+  (forall i tol K, (i < n)%nat ->
+     Rabs ((loglik m n A Pe b (rline x (unitv i) t) - loglik m n A Pe b x) / t) <= tol ->
+     Rabs (qf Pe m (mv A n (unitv i))) <= K ->
+     Rabs (glik m n A Pe b x i) <= tol + Rabs t * K / 2).
+Proof.
+  intros m n A Pe b HP x t Ht. split; [intros d; exact (fd_quotient m n A Pe b HP x d t Ht)|].
+  split; [intros i Hi; exact (fd_component m n A Pe b HP x i t Ht Hi)|].
+  intros i tol K Hi. exact (fd_test_bounds_gradient m n A Pe b HP x i t tol K Ht Hi).
+Qed.
+Print Assumptions C15_finite_difference_gradient.
+
+(* THE CONCAVITY HYPOTHESIS, PROVED for the prior classes the optimiser cells run (so that C15_gauss_plus_concave_maximiser applies to
+   those posteriors with no assumption on the prior left):
+   (1) quadratic log-priors -1/2 (D x - c)^T P (D x - c) -- Gaussian (D = I, P = prior precision, c = prior mean) and GMRF
+       (D = difference operator, P = prec I, c = D mean): modulus mh whenever D^T P D >= mh I, in particular 0 for every
+       positive semi-definite P;
+   (2) SmoothedLaplace as coded, h(x) = const - sum_i w_i sqrt((x_i - loc_i)^2 + beta), w_i = 1/scale_i >= 0, beta > 0, with the
+       gradient coded in SmoothedLaplace.gradient: modulus 0; and that coded gradient is the derivative of the coded logpdf. *)
+Theorem C15_prior_classes_concave :
+  (forall (k n : nat) (D P : rmat) (c : rvec) (mh : R), sym_on k P -> (forall v, mh * nsq n v <= qf P k (mv D n v)) ->
+     forall x y, loglik k n D P c y <= loglik k n D P c x + ip n (glik k n D P c x) (rsub y x) - mh / 2 * nsq n (rsub y x)) /\
+  (forall (k n : nat) (D P : rmat) (c : rvec), sym_on k P -> (forall w, 0 <= qf P k w) ->
+     forall x y, loglik k n D P c y <= loglik k n D P c x + ip n (glik k n D P c x) (rsub y x) - 0 / 2 * nsq n (rsub y x)) /\
+  (forall (n : nat) (loc w : rvec) (beta : R), 0 < beta -> (forall i, (i < n)%nat -> 0 <= w i) ->
+     forall x y, slap n loc w beta y <= slap n loc w beta x + ip n (gslap loc w beta x) (rsub y x) - 0 / 2 * nsq n (rsub y x)) /\
+  (forall (beta loc t : R), 0 < beta ->
+     is_derive (fun s => - sqrt ((s - loc) * (s - loc) + beta)) t (- ((t - loc) / sqrt ((t - loc) * (t - loc) + beta)))).
+Proof.
+  split; [exact quadratic_prior_concave|]. split; [exact quadratic_prior_concave0|].
+  split; [exact slap_concave | exact sl_scalar_derive].
+Qed.
+Print Assumptions C15_prior_classes_concave.
+
+(* (3) the NON-smooth Laplace prior h(x) = const - sum_i w_i |x_i - loc_i| meets the same first-order inequality with the supergradient
+   selection -w_i sgn(x_i - loc_i): the posteriors of the finding ..|nonsmooth-prior:bfgs-finite-differences ARE strongly concave whenever
+   A^T Pe A >= mu I > 0 - they have a unique maximiser and every conclusion of C15_gauss_plus_concave_maximiser holds for a point where
+   this supergradient selection of the posterior vanishes; what fails there is BFGS on finite differences, not unimodality. *)
+Theorem C15_laplace_prior_concave :
+  forall (n : nat) (loc w : rvec), (forall i, (i < n)%nat -> 0 <= w i) ->
+  forall x y, lap n loc w y <= lap n loc w x + ip n (glap loc w x) (rsub y x) - 0 / 2 * nsq n (rsub y x).
+Proof. exact lap_concave. Qed.
+Print Assumptions C15_laplace_prior_concave.
+
+(* non-vacuity of the chain with a SmoothedLaplace prior (A = 1, Pe = 1, data 1, loc 0, scale 1, beta = 3/4, mu = 1, mh = 0, xs = 1/2):
+   every hypothesis of C15_gauss_plus_concave_maximiser holds, the concavity one by C15_prior_classes_concave (3) *)
+Example C15_smoothed_laplace_example :
+  sym_on 1 slPe /\
+  (forall v, 1 * nsq 1 v <= qf slPe 1 (mv slA 1 v)) /\
+  (forall x y, slap 1 slloc slw (3 / 4) y <= slap 1 slloc slw (3 / 4) x + ip 1 (gslap slloc slw (3 / 4) x) (rsub y x) - 0 / 2 * nsq 1 (rsub y x)) /\
+  0 < 1 + 0 /\
+  zero_on 1 (gpost 1 1 slA slPe slb (gslap slloc slw (3 / 4)) slxs).
+Proof. exact smoothed_laplace_example. Qed.
 
 (* non-vacuity with a NON-quadratic log-concave prior: A = 1, Pe = 2, data 3, h(x) = -x^4, mu = 2, mh = 0, xs = 1 *)
 Example C15_gauss_plus_concave_example :
